@@ -534,12 +534,21 @@ func shrinkAndWrite(t *testing.T, p *Property, sc *Scenario, cfg *WorkerCfg, run
 	if cfg.Tier == "thorough" {
 		budget = 90 * time.Second
 	}
+	expired := func() bool { return time.Since(shrinkStart) > budget || attempts > 4000 }
 	try := func(cand []uint64) bool {
-		if time.Since(shrinkStart) > budget || attempts > 4000 {
+		if expired() {
 			return false
 		}
 		attempts++
+		t0 := time.Now()
 		rc := RunOne(t, sc, tape.Replay(cand), cfg.Tier, false)
+		if os.Getenv("VERIF_PROGRESS") != "" {
+			fmt.Fprintf(os.Stderr, "SHRINK attempt=%d len=%d took=%v\n", attempts, len(cand), time.Since(t0))
+		}
+		if d := time.Since(t0); d > budget/8 {
+			// a single re-execution this expensive: stop minimising, report as is
+			budget = 0
+		}
 		if rc.Infra == "" && rc.Viol != nil && rc.Viol.Sig() == sig {
 			accepted++
 			return true
@@ -553,8 +562,8 @@ func shrinkAndWrite(t *testing.T, p *Property, sc *Scenario, cfg *WorkerCfg, run
 		attempts = 1 << 30
 	}
 	// pass 0: truncate the tail (exhausted tape reads as zeros)
-	for cut := len(vals) / 2; cut >= 1; cut /= 2 {
-		for len(vals) > cut {
+	for cut := len(vals) / 2; cut >= 1 && !expired(); cut /= 2 {
+		for len(vals) > cut && !expired() {
 			cand := append([]uint64(nil), vals[:len(vals)-cut]...)
 			if try(cand) {
 				vals = cand
@@ -564,8 +573,13 @@ func shrinkAndWrite(t *testing.T, p *Property, sc *Scenario, cfg *WorkerCfg, run
 		}
 	}
 	// pass 1: delete spans
-	for span := len(vals) / 2; span >= 1; span /= 2 {
-		for i := 0; i+span <= len(vals); {
+	for span := len(vals) / 2; span >= 1 && !expired(); span /= 2 {
+		// (every candidate costs a copy of the tape: long tapes only get the
+		// coarse spans, otherwise this pass is quadratic)
+		if len(vals) > 20000 && span < len(vals)/64 {
+			break
+		}
+		for i := 0; i+span <= len(vals) && !expired(); {
 			cand := append(append([]uint64(nil), vals[:i]...), vals[i+span:]...)
 			if try(cand) {
 				vals = cand
@@ -575,8 +589,11 @@ func shrinkAndWrite(t *testing.T, p *Property, sc *Scenario, cfg *WorkerCfg, run
 		}
 	}
 	// pass 2: zero spans
-	for span := len(vals) / 2; span >= 1; span /= 2 {
-		for i := 0; i+span <= len(vals); i += span {
+	for span := len(vals) / 2; span >= 1 && !expired(); span /= 2 {
+		if len(vals) > 20000 && span < len(vals)/64 {
+			break
+		}
+		for i := 0; i+span <= len(vals) && !expired(); i += span {
 			allZero := true
 			for _, v := range vals[i : i+span] {
 				if v != 0 {
@@ -597,6 +614,9 @@ func shrinkAndWrite(t *testing.T, p *Property, sc *Scenario, cfg *WorkerCfg, run
 	}
 	// pass 3: lower individual values (halving)
 	for i := range vals {
+		if expired() || len(vals) > 20000 {
+			break
+		}
 		for vals[i] > 0 {
 			cand := append([]uint64(nil), vals...)
 			cand[i] = vals[i] / 2
